@@ -1569,3 +1569,132 @@ def pan9(ctx):
         r.report("PAN-9|insert|no-progress-iteration", ":".join((loc or b.loc).split(":")[:2]), b.path,
                  "an output element can be processed without editing the word or advancing the cursor (e.g. the `continue` for `$` at a syllable start): the insertion loop then finds the same insertion point again and never returns")
     return r
+
+
+# ---------------------------------------------------------------- PAN-10: no empty term in a term list
+
+TERM = "alloc::vec::Vec<asca::parser::Item>"
+
+
+def _def_of(b, l, upto_block):
+    """unique assignment / call defining local l (searching all non-cleanup blocks)"""
+    out = []
+    for bi, bl in enumerate(b.blocks):
+        if bl.get("cleanup"):
+            continue
+        for s in bl["s"]:
+            if s["k"] == "assign" and s["lhs"]["l"] == l and not s["lhs"]["p"]:
+                out.append(("assign", bi, s))
+        t = bl["t"]
+        if t["k"] == "call" and t.get("dest") and t["dest"]["l"] == l and not t["dest"]["p"]:
+            out.append(("call", bi, t))
+    return out
+
+
+def _root_local(b, l, depth=0):
+    """follow `_a = move _b` / `_a = &_b` chains to a named user local"""
+    if b.local_name(l):
+        return l
+    if depth > 6:
+        return None
+    ds = _def_of(b, l, None)
+    if len(ds) != 1 or ds[0][0] != "assign":
+        return None
+    rv = ds[0][2]["rv"]
+    if rv["k"] == "use" and rv["op"].get("k") in ("move", "copy") and not rv["op"]["pl"]["p"]:
+        return _root_local(b, rv["op"]["pl"]["l"], depth + 1)
+    if rv["k"] == "ref" and not rv["pl"]["p"]:
+        return _root_local(b, rv["pl"]["l"], depth + 1)
+    return None
+
+
+def pan10(ctx):
+    """The interpreter (Rule::split_into_subrules, SubRule) reads `term[0]` / `.first().expect()` of every input and output
+    term. A term list must therefore never contain an empty term: every push onto a Vec<Vec<Item>> is either a non-empty
+    `vec![..]` literal or a local that is not pushed on any path on which its own `is_empty()` test has answered true."""
+    r = RuleResult("PAN-10", "no empty term enters an input / output term list: each push onto a Vec<Vec<Item>> pushes a non-empty `vec![..]` literal, or a term that cannot reach the push once its `is_empty()` test has answered true (the interpreter indexes `term[0]`)", floor=5)
+    lib = ctx.lib
+    n = 0
+    for b in lib.bodies:
+        if b.in_test_mod() or not b.blocks:
+            continue
+        pushes = [(i, t) for i, t in b.calls() if (callee_path(t) or "") in ("alloc::vec::Vec::push", "alloc::vec::Vec::insert")
+                  and (t["callee"].get("gargs") or [""])[0] == TERM]
+        if not pushes:
+            continue
+        cfg = b.cfg
+        for k, (pi, pt) in enumerate(pushes):
+            n += 1
+            arg = pt["args"][-1]
+            loc = ":".join(pt["loc"].split(":")[:2])
+            L = _root_local(b, arg["pl"]["l"]) if arg.get("k") in ("move", "copy") and not arg["pl"]["p"] else None
+            if L is None:
+                # a literal: the pushed temporary is the result of the vec![..] expansion over a non-empty array
+                ds = _def_of(b, arg["pl"]["l"], None) if arg.get("k") in ("move", "copy") else []
+                lit = len(ds) == 1 and ds[0][0] == "call" and ds[0][2].get("exp") and "into_vec" in (callee_path(ds[0][2]) or "")
+                nelem = None
+                if lit:
+                    m = re.search(r"\[asca::parser::Item; (\d+)\]|<asca::parser::Item, (\d+)>", json_inst(ds[0][2]))
+                    nelem = int(m.group(1) or m.group(2)) if m else None
+                ok = bool(lit and nelem and nelem >= 1)
+                r.inst("%s: push #%d pushes a `vec![..]` literal of %s element(s)" % (b.path, k, nelem if nelem is not None else "unknown"), loc, "ok" if ok else "report")
+                if not ok:
+                    r.report("PAN-10|%s|push#%d|unrecognised" % (b.path, k), loc, b.path,
+                             "a term is pushed onto a term list and it is neither a non-empty `vec![..]` literal nor a local whose emptiness test can be followed: an empty term makes the interpreter's `term[0]` panic")
+                continue
+            name = b.local_name(L)
+            # is_empty tests of L: call block -> switch block -> true successor
+            tests = {}
+            for i, t in b.calls():
+                if (callee_path(t) or "").endswith("Vec::is_empty") and t["args"] and t["args"][0].get("k") in ("move", "copy"):
+                    if _root_local(b, t["args"][0]["pl"]["l"]) == L and t.get("t") is not None:
+                        sw = b.blocks[t["t"]]["t"]
+                        if sw["k"] == "switch" and sw["op"]["pl"]["l"] == t["dest"]["l"]:
+                            vals = dict((v, tg) for v, tg in sw["vals"])
+                            true_succ = vals.get(1, sw.get("otherwise") if 0 in vals else None)
+                            if true_succ is not None:
+                                tests[t["t"]] = true_succ
+            # blocks that give L a new value end the walk (a new iteration's term)
+            kills = set()
+            for bi, bl in enumerate(b.blocks):
+                t = bl["t"]
+                if t["k"] == "call" and t.get("dest") and t["dest"]["l"] == L and not t["dest"]["p"]:
+                    kills.add(bi)
+                for s in bl["s"]:
+                    if s["k"] == "assign" and s["lhs"]["l"] == L and not s["lhs"]["p"]:
+                        kills.add(bi)
+            bad = None
+            for sw_blk, start in sorted(tests.items()):
+                seen, st = {start}, [start]
+                while st and bad is None:
+                    x = st.pop()
+                    if x == pi:
+                        bad = sw_blk
+                        break
+                    if x in kills:
+                        continue
+                    nxt = [tests[x]] if x in tests else cfg.succ[x]
+                    for s2 in nxt:
+                        if s2 not in seen:
+                            seen.add(s2)
+                            st.append(s2)
+                if bad is not None:
+                    break
+            if not tests:
+                r.inst("%s: push #%d pushes `%s`, which is never tested for emptiness" % (b.path, k, name), loc, "report")
+                r.report("PAN-10|%s|%s|untested" % (b.path, name), loc, b.path,
+                         "`%s` is pushed onto a term list without any `is_empty()` test: an empty term makes the interpreter's `term[0]` panic" % name)
+                continue
+            r.inst("%s: push #%d pushes `%s` only where its is_empty() test (%d sites) answered false" % (b.path, k, name, len(tests)), loc, "ok" if bad is None else "report")
+            if bad is not None:
+                tl = b.blocks[bad]["t"].get("loc") or b.loc
+                r.report("PAN-10|%s|%s|empty-reaches-push" % (b.path, name), loc, b.path,
+                         "`%s` can reach this push on a path where `%s.is_empty()` (%s) answered true: an empty term enters the list (e.g. two commas in a row) and the interpreter's `term[0]` panics"
+                         % (name, name, ":".join(tl.split(":")[:2])))
+    r.analysed = {"push_sites": n}
+    return r
+
+
+def json_inst(t):
+    c = t.get("callee") or {}
+    return (c.get("inst") or "") + " " + " ".join(c.get("gargs") or [])
